@@ -709,7 +709,7 @@ MUTANTS = [
     Mut("columns-cursor-own-size", _COL, "Columns.get_cursor_coords", "w.get_cursor_coords(size_args[self.focus_position])", "w.get_cursor_coords(size)", "GEOM|widget.columns.Columns.get_cursor_coords"),
     Mut("boxadapter-cursor-size", _BOX, "BoxAdapter.get_cursor_coords", "return self._original_widget.get_cursor_coords((maxcol, self.height))", "return self._original_widget.get_cursor_coords((maxcol,))", "GEOM|widget.box_adapter.BoxAdapter.get_cursor_coords"),
     Mut("padding-cursor-none-unguarded", _PAD, "Padding.get_cursor_coords", "if (coords := self._original_widget.get_cursor_coords(maxvals)) is not None:\n            x, y = coords\n            return x + left, y\n\n        return None", "coords = self._original_widget.get_cursor_coords(maxvals)\n        x, y = coords\n        return x + left, y", "GUARD|widget.padding.Padding.get_cursor_coords"),
-    Mut("gridflow-cursor-stale-layout", "urwid/widget/grid_flow.py", "GridFlow.get_cursor_coords", "        self.get_display_widget(size)\n        return super().get_cursor_coords(size)", "        return super().get_cursor_coords(size)", "MEMO|widget.grid_flow.GridFlow.get_cursor_coords"),
+    Mut("gridflow-cursor-stale-layout", "urwid/widget/grid_flow.py", "GridFlow.get_cursor_coords", "        self.get_display_widget(size)\n        if not hasattr", "        if not hasattr", "MEMO|widget.grid_flow.GridFlow.get_cursor_coords"),
     Mut("listbox-offset-update-after-reset", "urwid/widget/listbox.py", "ListBox.calculate_visible", "                offset_rows += fill_lines\n                fill_lines = 0", "                fill_lines = 0\n                offset_rows += fill_lines", "NOOP|widget.listbox.ListBox.calculate_visible"),
     Mut("filler-move-closed-bound", _FIL, "Filler.move_cursor_to_coords", "if row < top or row >= maxrow - bottom:", "if row < top or row > maxrow - bottom:", "POSBOUND|widget.filler.Filler.move_cursor_to_coords"),
     Mut("twin-filler-regrouped", _FIL, "Filler.mouse_event", "return self._original_widget.mouse_event((maxcol, maxrow - top - bottom), event", "return self._original_widget.mouse_event((maxcol, maxrow - (top + bottom)), event", twin=True),
